@@ -367,14 +367,20 @@ def convert_db(gtf_filename, genedb_filename, convert_fn, args):
                     logger.info("Gene annotation file found. Using " + converted_gtf)
                     return converted_gtf, genedb_filename
 
+    # the time stamp of the source is taken before the conversion: if the file is replaced while it is being
+    # converted, the stored entry must not pair the new time stamp with the conversion of the old content
     if convert_fn == gtf2db:
+        gtf_mtime = os.path.getmtime(gtf_filename)
         convert_fn(gtf_filename, genedb_filename, args.complete_genedb, args.gtf_check)
+        db_mtime = os.path.getmtime(genedb_filename)
     else:
+        db_mtime = os.path.getmtime(genedb_filename)
         convert_fn(genedb_filename, gtf_filename)
+        gtf_mtime = os.path.getmtime(gtf_filename)
     converted_gtfs[gtf_filename] = {
         'genedb': genedb_filename,
-        'gtf_mtime': os.path.getmtime(gtf_filename),
-        'db_mtime': os.path.getmtime(genedb_filename),
+        'gtf_mtime': gtf_mtime,
+        'db_mtime': db_mtime,
         'complete_db': args.complete_genedb
     }
     dump_config(args.db_config_path, converted_gtfs)
